@@ -24,8 +24,8 @@
 //! under the SQLite-atomic-commit semantics and answers, for every N, `before` / `after`, plus
 //! the set of tables the transaction may change; both are compared with what was observed.
 //!
-//! Deterministic: the crash point is a call count, never a time.  quick = kind `create` plus one
-//! of `purge` / `modify` / `delete` (by seed) × every N; thorough (and any run with `--budget` > 1)
+//! Deterministic: the crash point is a call count, never a time.  quick = `create` | `modify` |
+//! `delete` + `purge` (by seed) × every N; thorough (and any run with `--budget` > 1)
 //! = all seven kinds; a kind with more storage calls than the cap (`schema`, `reindex`, `init`:
 //! 5-9 k) is sampled: first 40, last 40 (around the COMMIT) and an even stride whose offset rotates
 //! with the seed (`--cap 100000` = every N).
@@ -402,6 +402,29 @@ fn table_class(name: &str) -> &'static str {
 struct Ctx {
     dir: PathBuf,
     exe: PathBuf,
+    /// `--selftest split-ts | lose-ts` (never used by `./check`): harness-side sabotage of the crashed
+    /// database through the public `Backend` API before it is observed, see `sabotage`.
+    selftest: Option<String>,
+}
+
+/// What a broken implementation would have left behind, produced without touching /repo:
+///  * `split-ts`: for a crash BEFORE the COMMIT, `ts_max` of the crashed transaction is committed in a
+///    transaction of its own (as if `set_db_ts_max` ran on another connection / in a separate
+///    transaction) — the oracle must report `mixed-state`;
+///  * `lose-ts`: for a crash AFTER the COMMIT, `ts_max` is put back to the clock origin (as if it had
+///    been persisted outside the transaction and lost) — the oracle must report `mixed-state`, and with
+///    `--selftest lose-ts-cid` (raw comparison skipped) `cid-not-above-committed`.
+fn sabotage(mode: &str, path: &Path, n: u64, commit_pre: u64) -> Result<(), String> {
+    let ts = match mode {
+        "split-ts" if n > 2 && n <= commit_pre => TX,
+        "lose-ts" | "lose-ts-cid" if n > commit_pre => T0,
+        _ => return Ok(()),
+    };
+    let (be, _schema) = open_backend(path)?;
+    let mut w = be.write().map_err(|e| format!("{e:?}"))?;
+    w.set_db_ts_max(dur(ts)).map_err(|e| format!("{e:?}"))?;
+    w.commit().map_err(|e| format!("{e:?}"))?;
+    Ok(())
 }
 
 fn copy_db(from: &Path, to: &Path) -> Result<(), String> {
@@ -564,6 +587,10 @@ fn run_case(cx: &Ctx, kr: &KindRef, n: u64) -> CaseOut {
     let r = (|| -> Result<(String, Obs), String> {
         copy_db(&kr.base, &p)?;
         let (how, _) = run_child(cx, &p, &kr.kind, n, false, false)?;
+        if let Some(mode) = &cx.selftest {
+            let commit_pre = kr.trace.iter().position(|(k, _)| *k == hook::COMMIT_PRE).map(|i| i as u64 + 1).unwrap_or(0);
+            sabotage(mode, &p, n, commit_pre)?;
+        }
         let obs = observe(&p, kr.kind == "init")?;
         Ok((how, obs))
     })();
@@ -575,7 +602,7 @@ fn run_case(cx: &Ctx, kr: &KindRef, n: u64) -> CaseOut {
 }
 
 /// The oracle on one crash case; `Ok(side)` or the failure (class, expected, observed).
-fn judge(kr: &KindRef, c: &CaseOut) -> Result<&'static str, (String, String, String)> {
+fn judge(kr: &KindRef, c: &CaseOut, skip_raw: bool) -> Result<&'static str, (String, String, String)> {
     let total = kr.trace.len() as u64;
     let expect_signal = c.n >= 1 && c.n <= total;
     if expect_signal && c.how != "signal6" {
@@ -590,7 +617,7 @@ fn judge(kr: &KindRef, c: &CaseOut) -> Result<&'static str, (String, String, Str
     };
     let (side, refo) = if obs.raw == kr.before.raw {
         ("before", &kr.before)
-    } else if obs.raw == kr.after.raw {
+    } else if obs.raw == kr.after.raw || (skip_raw && differing_tables(&obs.raw, &kr.after.raw).iter().all(|t| t == "db_op_ts")) {
         ("after", &kr.after)
     } else {
         let db = differing_tables(&obs.raw, &kr.before.raw);
@@ -654,7 +681,7 @@ fn main() {
     let dir = PathBuf::from(format!("/tmp/C05/{}", std::process::id()));
     let _ = std::fs::remove_dir_all(&dir);
     std::fs::create_dir_all(&dir).expect("mkdir");
-    let cx = Arc::new(Ctx { dir: dir.clone(), exe });
+    let cx = Arc::new(Ctx { dir: dir.clone(), exe, selftest: a.extra.get("selftest").cloned() });
     let mut rep = Report::new(
         "crash",
         "a crash case is non-trivial when the child was killed inside the transaction (after BEGIN, N <= number of storage calls); key = kind:N",
@@ -676,9 +703,9 @@ fn main() {
         // search mode (a fingerprint changed / an obligation broke): every kind, also in the quick tier
         KINDS.iter().map(|s| s.to_string()).collect()
     } else {
-        // the quick tier rotates the second kind with the seed; `create` always runs
-        let rot = ["purge", "modify", "delete"];
-        vec!["create".to_string(), rot[(a.seed as usize) % rot.len()].to_string()]
+        // the quick tier runs one group of small kinds, by seed, every N
+        let rot: [&[&str]; 3] = [&["modify"], &["create"], &["delete", "purge"]];
+        rot[(a.seed as usize) % rot.len()].iter().map(|s| s.to_string()).collect()
     };
     let cap: u64 = a.extra.get("cap").map(|s| s.parse().expect("cap")).unwrap_or(if a.thorough() { 200 * a.budget.clamp(1, 3) } else if a.budget > 1 { 150 } else { 400 });
     let workers: usize = a.extra.get("workers").map(|s| s.parse().expect("workers")).unwrap_or(12);
@@ -808,7 +835,7 @@ fn main() {
             let inside = c.n >= 2 && c.n <= total;
             rep.case(if inside { Some(format!("{kind}:{}", c.n)) } else { None });
             let input = json!({"kind": kind, "n": c.n, "storage_calls": total, "commit_call": commit_pre});
-            match judge(&kr, c) {
+            match judge(&kr, c, cx.selftest.as_deref() == Some("lose-ts-cid")) {
                 Ok(side) => {
                     rep.count(&format!("{kind}:{side}"));
                     if side == "before" {
